@@ -281,4 +281,64 @@ func c43(c *engine.Ctx) {
 		c.Check(started, "C43.R3", "Run/starts-pingLoop", run.Pos(), "Conn.Run must start the keep-alive loop")
 	}
 	c.Floor("C43.R3", 4, n3)
+	// R4: the ping timeout of R3 reaches the wire only if the write path hands
+	// its caller's context on: in Conn.write (and the two thin wrappers) the
+	// context given to the transport's Send / to write is the function's own
+	// ctx parameter, possibly narrowed (WithTimeout/WithDeadline/WithCancel),
+	// never detached (WithoutCancel, Background, TODO).
+	n4 := 0
+	for _, name := range []string{"Conn.write", "Conn.writeServiceMessage", "Conn.writeContentMessage", "Conn.Ping"} {
+		fn := c.Func("mtproto", name)
+		if fn == nil {
+			continue
+		}
+		var ctxParam *ssa.Parameter
+		for _, p := range fn.Params {
+			if p.Type().String() == "context.Context" {
+				ctxParam = p
+			}
+		}
+		if ctxParam == nil {
+			continue
+		}
+		for _, call := range engine.Calls(fn) {
+			id := engine.CalleeID(call.Common())
+			isSend := call.Common().IsInvoke() && call.Common().Method.Name() == "Send"
+			isWrite := id == "(*mtproto.Conn).write" || id == "(*mtproto.Conn).writeServiceMessage"
+			if !isSend && !isWrite {
+				continue
+			}
+			var arg ssa.Value
+			for _, a := range call.Common().Args {
+				if a.Type().String() == "context.Context" {
+					arg = a
+					break
+				}
+			}
+			if arg == nil {
+				continue
+			}
+			n4++
+			ok := false
+			v := arg
+			for d := 0; d < 6; d++ {
+				if engine.Unwrap(v) == ssa.Value(ctxParam) {
+					ok = true
+					break
+				}
+				cl := engine.CallOf(v)
+				if cl == nil {
+					break
+				}
+				switch engine.CalleeID(cl.Common()) {
+				case "context.WithTimeout", "context.WithDeadline", "context.WithCancel", "context.WithValue", "context.WithCancelCause", "context.WithTimeoutCause":
+					v = cl.Common().Args[0]
+				default:
+					d = 99
+				}
+			}
+			c.Check(ok, "C43.R4", name+"/forwards-caller-context#"+ordinalCall(fn, call), call.Pos(), "the context handed to %s must be the caller's context (possibly narrowed): a detached context lets a stalled send outlive the ping timeout, so a missed pong no longer ends the connection (is %s)", engine.Short(id), engine.Describe(arg))
+		}
+	}
+	c.Floor("C43.R4", 3, n4)
 }
